@@ -31,8 +31,16 @@ pub fn generate(tier: &str, rng: &mut Rng) -> Vec<Spec> {
         let n = rng.range(1, 9) as usize; let len = rng.range(2, if t { 80 } else { 30 }) as usize;
         let mut cur = rng.range(-5, 5);
         let xs: Vec<i64> = (0..len).map(|_| { match rng.below(8) { 0 => cur + rng.range(20, 200) * if rng.coin(1, 2) { 1 } else { -1 }, 1 | 2 => { cur += rng.range(-2, 2); cur } _ => cur } }).collect();
-        v.push(Spec::new("hampel").with("N", n).with("thr", *rng.pick(&thrs)).with("ty", if rng.coin(1, 3) { "f32" } else { "f64" }).with("xs", join(&xs)));
+        let ty = if rng.coin(1, 3) { "f32" } else { "f64" };
+        let mut sp = Spec::new("hampel").with("N", n).with("thr", *rng.pick(&thrs)).with("ty", ty).with("xs", join(&xs));
+        // every fourth case at an extreme amplitude: the samples are multiplied by 2^sc (exact in binary floating point), the outputs
+        // divided by it; by C18_affine_equivariant the model's outputs scale the same way, so the Coq side sees the unscaled case
+        if rng.coin(1, 4) { sp = sp.with("sc", if ty == "f32" { *rng.pick(&[64i64, -64, 100, -100]) } else { *rng.pick(&[500i64, -500, 900, -900]) }); }
+        v.push(sp);
     }
+    for n in 1..=3 { for thr in ["1", "3"] { for (ty, scs) in [("f32", [64i64, -64]), ("f64", [520, -520])] { for sc in scs {
+        for xs in crate::util::all_seqs(&[0, 2, 40], 4) {
+            v.push(Spec::new("hampel").with("N", n).with("thr", thr).with("ty", ty).with("xs", join(&xs)).with("sc", sc)); } } } } }
     add_entry_points(v, rng, &["hampel"], 40, |rng: &mut Rng| { let l = rng.range(1, 4); (0..l).map(|k| if k == 0 { rng.range(5, 9).to_string() } else { rng.range(-11, 11).to_string() }).collect::<Vec<_>>().join(",") })
 }
 
@@ -54,16 +62,18 @@ fn min_margin(n: usize, thr: Rat, xs: &[i64]) -> f64 {
     m
 }
 
-fn run<const N: usize>(ty: &str, thr: Rat, xs: &[i64], stats: &mut Stats) -> Outcome {
+fn run<const N: usize>(ty: &str, thr: Rat, xs: &[i64], sc: i32, stats: &mut Stats) -> Outcome {
     let margin = min_margin(N, thr, xs);
     if margin < (if ty == "f32" { 1e-3 } else { 1e-6 }) { return Outcome::Skip("decision-margin-too-small"); }
     let mut ys: Vec<i64> = vec![]; let mut panic = false; let mut inexact = false;
     if ty == "f32" {
-        let mut f: Hampel<f32, N> = enter(Hampel::with_config(Config { threshold: thr.to_f64() as f32 }), stats, |f, t| { f.filter(t.parse::<i64>().unwrap() as f32); });
-        for x in xs { match catch(|| f.filter(*x as f32)) { Ok(y) => { if y.fract() != 0.0 { inexact = true; } ys.push(y as i64) } Err(_) => { panic = true; break } } }
+        let k = 2.0f32.powi(sc);        // a power of two: scaling by it is exact (no overflow, no subnormals for the amplitudes generated)
+        let mut f: Hampel<f32, N> = enter(Hampel::with_config(Config { threshold: thr.to_f64() as f32 }), stats, |f, t| { f.filter(t.parse::<i64>().unwrap() as f32 * k); });
+        for x in xs { match catch(|| f.filter(*x as f32 * k)) { Ok(y) => { let y = y / k; if y.fract() != 0.0 { inexact = true; } ys.push(y as i64) } Err(_) => { panic = true; break } } }
     } else {
-        let mut f: Hampel<f64, N> = enter(Hampel::with_config(Config { threshold: thr.to_f64() }), stats, |f, t| { f.filter(t.parse::<i64>().unwrap() as f64); });
-        for x in xs { match catch(|| f.filter(*x as f64)) { Ok(y) => { if y.fract() != 0.0 { inexact = true; } ys.push(y as i64) } Err(_) => { panic = true; break } } }
+        let k = 2.0f64.powi(sc);
+        let mut f: Hampel<f64, N> = enter(Hampel::with_config(Config { threshold: thr.to_f64() }), stats, |f, t| { f.filter(t.parse::<i64>().unwrap() as f64 * k); });
+        for x in xs { match catch(|| f.filter(*x as f64 * k)) { Ok(y) => { let y = y / k; if y.fract() != 0.0 { inexact = true; } ys.push(y as i64) } Err(_) => { panic = true; break } } }
     }
     if panic { stats.panics += 1; }
     if inexact { // an output that is not an integer cannot be one of the (integer) samples: report it as a value no sample has
@@ -74,5 +84,7 @@ fn run<const N: usize>(ty: &str, thr: Rat, xs: &[i64], stats: &mut Stats) -> Out
 pub fn exec(s: &Spec, stats: &mut Stats) -> Outcome {
     let n = s.usize("N"); let xs = s.i64s("xs"); let thr = s.rat("thr"); let ty = s.get("ty").to_string();
     stats.bump(format!("N:{}", n)); stats.bump(format!("ty:{}", ty)); stats.bump(format!("thr:{}", thr.show()));
-    crate::dispatch_n!(n, run, (&ty, thr, &xs, stats); 1 2 3 4 5 6 7 8 9 64 100 300)
+    let sc = if s.has("sc") { s.i64s("sc")[0] as i32 } else { 0 };
+    if sc != 0 { stats.bump(format!("scale:2^{}", sc)); }
+    crate::dispatch_n!(n, run, (&ty, thr, &xs, sc, stats); 1 2 3 4 5 6 7 8 9 64 100 300)
 }
